@@ -549,6 +549,46 @@ def _unshift_out(line, d1, d2):
     return line
 
 
+def oracle_tx_outstanding(case, impl):
+    """C09: "ordering and distance of two sequence numbers agree with true modular distance for every distance the
+    configured windows allow". The sender compares `last_sent_seq_nr`, `snd_una` and segment numbers with 16-bit
+    arithmetic that is true modular distance only up to WRAP_TOLERANCE = 32767: so the configured windows must never
+    allow more than that many segments to be outstanding. The oracle counts, in unbounded integers, the data
+    segments transmitted for the first time and the ones the peer has acknowledged."""
+    tr = Trace(case, impl)
+    hits = []
+    nxt = una = None            # unbounded: next never-used number, first unacknowledged number
+    pending = []
+    for ev in tr.events:
+        if ev["op"] == "new":
+            if ev["opts"]["dir"] != "out":
+                return []
+            nxt = una = int(ev["opts"].get("our", 101))
+            pending = []
+        if nxt is None:
+            continue
+        if ev["op"] == "inject" and "dgram" in ev:
+            pending.append(ev["dgram"])
+        if ev["op"] != "poll" or "dgrams" not in ev:
+            continue
+        for d in pending:
+            if d["type"] in (3, 4):
+                continue
+            # the representative of ack+1 within [una, nxt]; anything else is a stale or bogus acknowledgement
+            cand = una + ((d["ack"] + 1 - una) % 65536)
+            if cand <= nxt:
+                una = cand
+        pending = []
+        for d in ev["dgrams"]:
+            if d["type"] == 0 and d["seq"] == nxt % 65536:
+                nxt += 1
+        if nxt - una > 32767:
+            hits.append({"sig": {"oracle": "tx_outstanding", "what": "more_segments_outstanding_than_the_wrap_tolerance"},
+                         "text": f"poll at t={ev['t']} ns: {nxt - una} data segments are outstanding (first transmitted, not acknowledged): beyond 32767 the 16-bit distance last_sent_seq_nr - snd_una is no longer the true distance (result of this poll: {ev['res']}; last_sent_seq_nr={ev['fp'].get('lss')})"})
+            break
+    return hits
+
+
 def oracle_isn_relabel(case, impl):
     """C09 (whole connection): the same scenario with both initial sequence numbers moved (so that the 16-bit
     wrap falls inside it) produces the same packet trace and stream-call results up to that relabelling."""
@@ -1851,6 +1891,7 @@ ALL = {
     "fin_answered": oracle_fin_answered,
     "nagle": oracle_nagle,
     "isn_relabel": oracle_isn_relabel,
+    "tx_outstanding": oracle_tx_outstanding,
     "task_ends": oracle_task_ends,
     "retx_cap": oracle_retx_cap,
     "ack_honesty": oracle_ack_honesty,
